@@ -103,6 +103,7 @@ def lake_build(prop):
     lock = open(os.path.join(LEAN, ".build.lock"), "w")
     fcntl.flock(lock, fcntl.LOCK_EX)
     try:
+        sh([sys.executable, os.path.join(VERIF, "tools", "gen_roots.py")], cwd=VERIF)
         ok_tables, tmsg = regenerate_tables()
         t0 = time.time()
         rc, out = sh(["lake", "build"] + targets, cwd=LEAN, timeout=3000)
